@@ -51,6 +51,8 @@ class Table:
             return z3.IntVal(e.value)
         if isinstance(e, ast.Name) and e.id in env and z3.is_int(env[e.id]):
             return env[e.id]
+        if isinstance(e, ast.Name) and e.id in self.int_vars:
+            return z3.Int(e.id)
         if isinstance(e, ast.BinOp) and isinstance(e.op, (ast.Add, ast.Sub)):
             a, b = self.integer(e.left, env), self.integer(e.right, env)
             if a is not None and b is not None:
@@ -121,9 +123,19 @@ class Table:
                     return [Path(p.cond, p.effects + [("set", f"{tgt.id} = {ast.unparse(st.value)}")], env)]
                 return [Path(p.cond, p.effects + [("local", ast.unparse(st))], env)]
             return [Path(p.cond, p.effects + [("store", ast.unparse(st))], p.env)]
+        if isinstance(st, ast.AugAssign) and isinstance(st.target, ast.Name) and st.target.id not in self.int_vars and st.target.id not in self.opt_vars and \
+                isinstance(st.op, (ast.Add, ast.Sub)) and self.integer(st.value, p.env) is not None:
+            # a counter the caller did not announce: an integer all the same
+            self.int_vars.add(st.target.id)
+            if st.target.id not in p.env:
+                p.env[st.target.id] = z3.Int(st.target.id)
         if isinstance(st, ast.AugAssign) and isinstance(st.target, ast.Name) and st.target.id in self.int_vars:
             env = dict(p.env)
             d = self.integer(st.value, env)
+            if st.target.id not in env:
+                env[st.target.id] = z3.Int(st.target.id)
+            if d is None:
+                d = z3.FreshInt("delta")
             env[st.target.id] = env[st.target.id] + d if isinstance(st.op, ast.Add) else env[st.target.id] - d
             return [Path(p.cond, p.effects + [("set", ast.unparse(st))], env)]
         if isinstance(st, ast.Expr) and isinstance(st.value, ast.Call):
